@@ -41,6 +41,9 @@ EnvelopeFails(e) ==
            /\ UnwrapOK(e, "strayed") /\ UnwrapOK(e, "cut"), "C17.unwrap")
 
 StructFails(e) == Tag(e.err = "" /\ "back" \in DOMAIN e /\ e.back = e.doc /\ "docv" \in DOMAIN e /\ e.docv = e.doc, "C17.struct")
+                  \* every timestamp of the payload that was sent is, to one second, the timestamp of the payload that arrived
+                  \* (equal documents are not enough: a member left out on the way is left out of both)
+                  \o (IF "times" \in DOMAIN e THEN Tag(e.backtimes = e.times, "C17.struct") ELSE <<>>)
 
 \* a text / JSON value decoded into a variable that held another value before is the value of the text alone
 ReuseFails(e) == IF e.err2 # "" \/ e.errfresh # "" THEN Tag(e.err2 = e.errfresh, "C17.roundtrip")
